@@ -39,6 +39,46 @@ func rootAlloc(v ssa.Value) *ssa.Alloc {
 	return nil
 }
 
+// rootOf follows field/index addressing and loads back to the value they start from: a local
+// variable (or the one value it was initialised with), a call result or a parameter.
+func rootOf(v ssa.Value) ssa.Value {
+	for i := 0; i < 14; i++ {
+		switch x := v.(type) {
+		case *ssa.Alloc:
+			if st := onlyStore(x); st != nil {
+				switch sv := st.Val.(type) {
+				case *ssa.Call, *ssa.Parameter:
+					return st.Val
+				case *ssa.UnOp, *ssa.Field:
+					// a local copy of part of another value
+					v = sv
+					continue
+				}
+			}
+			return x
+		case *ssa.Call, *ssa.Parameter:
+			return v
+		case *ssa.FieldAddr:
+			v = x.X
+		case *ssa.IndexAddr:
+			v = x.X
+		case *ssa.UnOp:
+			v = x.X
+		case *ssa.Field:
+			v = x.X
+		case *ssa.ChangeType:
+			v = x.X
+		case *ssa.Convert:
+			v = x.X
+		case *ssa.MakeInterface:
+			v = x.X
+		default:
+			return nil
+		}
+	}
+	return nil
+}
+
 // fieldPath returns the field names selected from the root ("TextDocument.URI").
 func fieldPath(v ssa.Value) string {
 	var parts []string
@@ -63,6 +103,16 @@ func fieldPath(v ssa.Value) string {
 			v = x.X
 		case *ssa.Convert:
 			v = x.X
+		case *ssa.Alloc:
+			// a local copy of part of another value
+			if st := onlyStore(x); st != nil {
+				switch st.Val.(type) {
+				case *ssa.UnOp, *ssa.Field:
+					v = st.Val
+					continue
+				}
+			}
+			return strings.Join(parts, ".")
 		default:
 			return strings.Join(parts, ".")
 		}
@@ -78,8 +128,12 @@ func paramRoot(v ssa.Value, fn *ssa.Function) *ssa.Parameter {
 			return x
 		case *ssa.Alloc:
 			if st := onlyStore(x); st != nil {
-				if p, ok := st.Val.(*ssa.Parameter); ok {
-					return p
+				switch sv := st.Val.(type) {
+				case *ssa.Parameter:
+					return sv
+				case *ssa.UnOp, *ssa.Field:
+					v = sv // a local copy of part of another value
+					continue
 				}
 			}
 			return nil
@@ -737,7 +791,7 @@ func (c *Ctx) LSPDocumentStore(ob *core.Obligation) {
 			c.Touch(fn)
 			args := call.Call.Args
 			uri, text := args[1], args[2]
-			ru, rt := rootAlloc(uri), rootAlloc(text)
+			ru, rt := rootOf(uri), rootOf(text)
 			pu, pt := fieldPath(uri), fieldPath(text)
 			method := "open"
 			if strings.Contains(pt, "ContentChanges") {
@@ -758,26 +812,90 @@ func (c *Ctx) LSPDocumentStore(ob *core.Obligation) {
 			}
 		}
 	}
-	// query handlers: look the document up under the request's own URI and answer under it
+	// query handlers: look the document up under the request's own URI and answer under it.
+	// The lookup may sit in a helper that is given the key and returns the document found.
+	isDocLookup := func(in ssa.Instruction) *ssa.Lookup {
+		lk, ok := in.(*ssa.Lookup)
+		if !ok {
+			return nil
+		}
+		ld, ok := lk.X.(*ssa.UnOp)
+		if !ok || core.FieldOf(ld.X) != docF {
+			return nil
+		}
+		return lk
+	}
+	helpers := map[*ssa.Function]int{}
 	for _, fn := range c.P.ModuleFunctions() {
 		if relOfFn(fn) != "internal/lsp" || fn == upd {
 			continue
 		}
 		for _, b := range fn.Blocks {
 			for _, in := range b.Instrs {
-				lk, ok := in.(*ssa.Lookup)
+				lk := isDocLookup(in)
+				if lk == nil {
+					continue
+				}
+				p, ok := lk.Index.(*ssa.Parameter)
 				if !ok {
 					continue
 				}
-				ld, ok := lk.X.(*ssa.UnOp)
-				if !ok || core.FieldOf(ld.X) != docF {
+				// every return hands back the value found (or reports "not found")
+				good := true
+				for _, ret := range core.Returns(fn) {
+					if len(ret.Results) != 2 {
+						good = false
+						continue
+					}
+					if k, isK := ret.Results[1].(*ssa.Const); isK && k.Value != nil && k.Value.ExactString() == "false" {
+						continue
+					}
+					r0 := ret.Results[0]
+					if ex, ok := r0.(*ssa.Extract); ok && ex.Tuple == lk && ex.Index == 0 {
+						continue
+					}
+					if al := rootAlloc(r0); al != nil && allocHoldsLookup(al, lk) && fieldPath(r0) == "" {
+						continue
+					}
+					good = false
+				}
+				if good {
+					for i, q := range fn.Params {
+						if q == p {
+							helpers[fn] = i
+							c.Touch(fn)
+						}
+					}
+				}
+			}
+		}
+	}
+	for _, fn := range c.P.ModuleFunctions() {
+		if relOfFn(fn) != "internal/lsp" || fn == upd {
+			continue
+		}
+		if _, isHelper := helpers[fn]; isHelper {
+			continue
+		}
+		for _, b := range fn.Blocks {
+			for _, in := range b.Instrs {
+				var index ssa.Value
+				var tuple ssa.Value
+				if lk := isDocLookup(in); lk != nil {
+					index, tuple = lk.Index, lk
+				} else if call, ok := in.(*ssa.Call); ok {
+					if k, isH := helpers[call.Call.StaticCallee()]; isH && call.Call.StaticCallee() != nil {
+						index, tuple = call.Call.Args[k], call
+					}
+				}
+				if tuple == nil {
 					continue
 				}
 				c.Touch(fn)
 				key := "lsp-store:query:" + core.SSAName(fn)
-				p := paramRoot(lk.Index, fn)
-				if p == nil || !strings.HasSuffix(fieldPath(lk.Index), "TextDocument.URI") {
-					ob.Fail(key, c.P.Pos(lk.Pos()), "the document is not looked up under the request's own TextDocument.URI")
+				p := paramRoot(index, fn)
+				if p == nil || !strings.HasSuffix(fieldPath(index), "TextDocument.URI") {
+					ob.Fail(key, c.P.Pos(in.Pos()), "the document is not looked up under the request's own TextDocument.URI")
 					continue
 				}
 				// analysis calls take Program / CheckResult of that document value only
@@ -797,7 +915,7 @@ func (c *Ctx) LSPDocumentStore(ob *core.Obligation) {
 					}
 					for _, a := range core.CallArgs(&call.Call) {
 						if strings.Contains(fieldPath(a), "CheckResult") || strings.Contains(fieldPath(a), "Program") {
-							if al := rootAlloc(a); al == nil || !allocHoldsLookup(al, lk) {
+							if al := rootAlloc(a); al == nil || !allocHoldsLookup(al, tuple) {
 								bad = "analysis call " + o.Name() + " is given the state of a value other than the document looked up"
 							}
 						}
@@ -818,16 +936,16 @@ func (c *Ctx) LSPDocumentStore(ob *core.Obligation) {
 					}
 				}
 				if bad != "" {
-					ob.Fail(key, c.P.Pos(lk.Pos()), bad)
+					ob.Fail(key, c.P.Pos(in.Pos()), bad)
 				} else {
-					ob.Pass(key, c.P.Pos(lk.Pos()), "looked up under the request's URI; analysis runs on that document's own program and check result")
+					ob.Pass(key, c.P.Pos(in.Pos()), "looked up under the request's URI; analysis runs on that document's own program and check result")
 				}
 			}
 		}
 	}
 }
 
-func allocHoldsLookup(al *ssa.Alloc, lk *ssa.Lookup) bool {
+func allocHoldsLookup(al *ssa.Alloc, lk ssa.Value) bool {
 	if al.Referrers() == nil {
 		return false
 	}
@@ -849,6 +967,14 @@ func lastElement(v ssa.Value) bool {
 			v = x.X
 		case *ssa.FieldAddr:
 			v = x.X
+		case *ssa.Field:
+			v = x.X
+		case *ssa.Alloc:
+			st := onlyStore(x)
+			if st == nil {
+				return false
+			}
+			v = st.Val
 		case *ssa.IndexAddr:
 			t, off := core.Linear(x.Index)
 			return off == -1 && t == "len("+core.Canon(x.X)+")"
@@ -878,6 +1004,26 @@ func (c *Ctx) lspPublish(ob *core.Obligation, fn *ssa.Function, uri *ssa.Paramet
 						okLoop = true
 					}
 				}
+			}
+		}
+	}
+	// or a conversion helper that returns one element per element of the diagnostics it is given
+	for _, ci := range core.Calls(fn) {
+		call, ok := ci.(*ssa.Call)
+		if !ok {
+			continue
+		}
+		sc := call.Call.StaticCallee()
+		if sc == nil || !c.P.InModule(sc) || len(sc.Blocks) == 0 {
+			continue
+		}
+		for ai, a := range call.Call.Args {
+			if !strings.HasSuffix(fieldPath(a), "Diagnostics") {
+				continue
+			}
+			if al := rootAlloc(a); al != nil && storedFrom(al, checked) && c.lenFacts().summary(sc) == ai {
+				okLoop = true
+				c.Touch(sc)
 			}
 		}
 	}
